@@ -65,9 +65,14 @@ const WAL_EXTENSION: &str = "wal";
 /// Snapshot file extension
 const SNAPSHOT_EXTENSION: &str = "snap";
 
+/// File holding the per-store key of the record integrity tags
+const INTEGRITY_KEY_FILE_NAME: &str = "state.key";
+
+/// Size of the integrity key in bytes
+const INTEGRITY_KEY_SIZE: usize = 32;
+
 /// State file permissions (owner read/write only)
 #[cfg(unix)]
-#[allow(dead_code)]
 const STATE_FILE_PERMISSIONS: u32 = 0o600;
 
 /// Transaction type for WAL entries
@@ -468,9 +473,10 @@ impl<T: Serialize + for<'de> Deserialize<'de> + Clone + PartialEq + Send + Sync 
             ))
         })?;
 
-        // Generate HMAC key
-        let mut hmac_key_bytes = vec![0u8; 32];
-        rand::thread_rng().fill_bytes(&mut hmac_key_bytes);
+        // Load the store's integrity key, or create it on first use. The key has to
+        // outlive the process: records written by an earlier run are verified with it
+        // during recovery.
+        let hmac_key_bytes = Self::load_or_create_integrity_key(&config.state_dir)?;
         let hmac_key = SecureMemory::from_slice(&hmac_key_bytes)?;
 
         // Create WAL writer
@@ -496,6 +502,44 @@ impl<T: Serialize + for<'de> Deserialize<'de> + Clone + PartialEq + Send + Sync 
         manager.start_checkpoint_task()?;
 
         Ok(manager)
+    }
+
+    /// Read the integrity key of this state directory, creating it if the directory is new.
+    fn load_or_create_integrity_key(state_dir: &Path) -> Result<Vec<u8>> {
+        let key_path = state_dir.join(INTEGRITY_KEY_FILE_NAME);
+        if let Ok(existing) = std::fs::read(&key_path)
+            && existing.len() == INTEGRITY_KEY_SIZE
+        {
+            return Ok(existing);
+        }
+
+        let mut key = vec![0u8; INTEGRITY_KEY_SIZE];
+        rand::thread_rng().fill_bytes(&mut key);
+
+        // Write to a temporary file and rename, so a crash never leaves a short key
+        let temp_path = key_path.with_extension("tmp");
+        {
+            let mut options = OpenOptions::new();
+            options.create(true).write(true).truncate(true);
+            #[cfg(unix)]
+            {
+                use std::os::unix::fs::OpenOptionsExt;
+                options.mode(STATE_FILE_PERMISSIONS);
+            }
+            let mut file = options.open(&temp_path).map_err(|e| {
+                P2PError::Storage(StorageError::Database(
+                    format!("Failed to create integrity key file: {e}").into(),
+                ))
+            })?;
+            file.write_all(&key)?;
+            file.sync_all()?;
+        }
+        std::fs::rename(&temp_path, &key_path).map_err(|e| {
+            P2PError::Storage(StorageError::Database(
+                format!("Failed to store integrity key: {e}").into(),
+            ))
+        })?;
+        Ok(key)
     }
 
     /// Insert or update state entry
